@@ -41,7 +41,7 @@ m = {
         "kind_free_text": "custom static analyser over go/packages + go/ssa (x/tools v0.50.0, go1.26.8): repository-specific rules on dominance/path cuts, value provenance terms, locksets, who-may-write tables, linear effect summaries, bit-dependency and an abstract interpreter for the amd64 assembly; no ristretto code is executed and no solver is called",
     }],
     "checks": checks,
-    "notes": "Every claim is level 'other': a set of structural necessary conditions decided statically for /repo's current source; see DESIGN.md section 0 for what each does not decide. quick = all rules on linux/amd64 (+arm64 where a property has portable siblings); thorough = more build variants + the rule self-test (mutant corpus under checker/selftest, both directions). Genuine defects found and repaired in /repo (one 'fix:' commit each): known_findings.json (F1, F2, F4, F5, F6 fixed; F3 advisory only).",
+    "notes": "Every claim is level 'other': a set of structural necessary conditions decided statically for /repo's current source; see DESIGN.md section 0 for what each does not decide. quick = all rules on linux/amd64 (+arm64 where a property has portable siblings); thorough = more build variants + the rule self-test (mutant corpus under checker/selftest, both directions). Genuine defects found and repaired in /repo (one 'fix:' commit each): known_findings.json (F1, F2, F4, F5, F6, F7 fixed; F3 advisory only).",
     "not_applicable": na,
 }
 json.dump(m, open(os.path.join(HERE, "MANIFEST.json"), "w"), indent=1)
